@@ -8,6 +8,7 @@ mod common;
 mod corpus;
 mod misc;
 mod parsers;
+mod san;
 mod uris;
 
 use vkit::alloc::Counting;
@@ -24,7 +25,9 @@ fn main() {
     let seed = args.u64("--seed", 1);
     let out = args.str("--out", "");
     vkit::util::install_panic_hook();
-    if let Err(e) = ippref::self_check() {
+    if cfg!(miri) {
+        // the interpreter is ~4 orders of magnitude slower; the reference codec is anchored by the native runs
+    } else if let Err(e) = ippref::self_check() {
         eprintln!("reference codec self-check failed: {e}");
         std::process::exit(3);
     }
@@ -49,6 +52,7 @@ fn main() {
             misc::run_cost(&args);
             return;
         }
+        "san" => san::run(&args, &tier, seed),
         "c02w" => c02::run_worker(&args, &tier, seed),
         "c02bomb" => c02::run_bomb(&args, &tier, seed),
         _ => {
